@@ -17,15 +17,24 @@ open Varint Proto
 
 variable {B C : Type}
 
-/-- side condition of an operation: `reload` (= `DecodeProtobuf(n.RawData())`) is only claimed for
-blocks shorter than 2^64 bytes (protobuf lengths are 64-bit); all other operations are unconditional -/
+/-- side conditions of an operation:
+* `reload` / `reloadBlock` (decode the node's own block) are only claimed for blocks shorter than 2^64
+  bytes (protobuf lengths are 64-bit);
+* a link handed to the node carries a Go `cid.Cid`: when defined it is a well-formed CID (`cidWf`).
+All other operations are unconditional. -/
 def opOk (n : Node B C) : Op B → Prop
   | .reload => (encodePB n.links n.data).length < 2 ^ 64
+  | .reloadBlock => (encodePB n.links n.data).length < 2 ^ 64
+  | .addLink l => checkLink l = true → cidWf l.cid
+  | .updateNodeLink l => checkLink l = true → cidWf l.cid
+  | .setLinks ls => ∀ l ∈ ls, cidWf l.cid
+  | .unmarshalJSON _ ls => ∀ l ∈ ls, cidWf l.cid
   | _ => True
 
 /-- nodes reachable from `NodeWithData(d)` by any sequence of the modelled operations:
-addLink / removeLink / setLinks / setData / setBuilder (nil included) / copy / reload and the reads
-links / getLink / data / marshal / rawData / size / cid, in any order -/
+AddRawLink/AddNodeLink, RemoveNodeLink, SetLinks, SetData, SetCidBuilder (nil included), Copy,
+UpdateNodeLink, UnmarshalJSON, DecodeProtobuf(RawData()), DecodeProtobufBlock(own block) and the reads
+Links, Tree, MarshalJSON, GetPBNode, GetNodeLink, Data, Marshal, RawData, Size, Stat, Cid, in any order -/
 inductive Reachable (P : Params B C) : Node B C → Prop
   | fresh (d : Option Bytes) : Reachable P (fresh d)
   | step {n : Node B C} (op : Op B) : Reachable P n → opOk n op → Reachable P (step P n op).1
@@ -34,9 +43,9 @@ inductive Reachable (P : Params B C) : Node B C → Prop
 theorem c11_inv_step (P : Params B C) (n : Node B C) (op : Op B) (h : Inv P n) (hok : opOk n op) :
     Inv P (step P n op).1 := by
   cases op with
-  | addLink l => exact inv_addLink P n l h
+  | addLink l => exact inv_addLink P n l h hok
   | removeLink nm => exact inv_removeLink P n nm h
-  | setLinks ls => exact inv_setLinks P n ls h
+  | setLinks ls => exact inv_setLinks P n ls h hok
   | setData d => exact inv_setData P n d h
   | setBuilder b => exact inv_setBuilder P n b h
   | copy => exact inv_copy P n h
@@ -50,6 +59,13 @@ theorem c11_inv_step (P : Params B C) (n : Node B C) (op : Op B) (h : Inv P n) (
   | rawData => exact (encodeProtobuf_spec P n false h).2.2.2.2.2.2.2
   | size => exact (encodeProtobuf_spec P n false h).2.2.2.2.2.2.2
   | cid => exact (encodeProtobuf_spec P n false h).2.2.2.2.2.2.2
+  | tree => exact inv_cleanLinks P n h
+  | marshalJSON => exact inv_cleanLinks P n h
+  | unmarshalJSON d ls => exact inv_unmarshalJSON P n d ls h hok
+  | getPBNode => exact h
+  | stat => exact (stat_spec P n h).1
+  | updateNodeLink l => exact inv_updateNodeLink P n l h hok
+  | reloadBlock => exact (reloadBlock_spec P n h hok).1
 
 theorem c11_reachable_inv (P : Params B C) (n : Node B C) (h : Reachable P n) : Inv P n := by
   induction h with
@@ -78,12 +94,14 @@ theorem c11_cid_is_hash_of_rawdata (P : Params B C) (n : Node B C) (h : Reachabl
     (cid P n).2 = some (P.sum (eff P n) (rawData P n).2) := by
   rw [c11_cid_fresh P n h, c11_rawdata_fresh P n h]
 
-/-- The reads (`Links`, `Marshal`, `RawData`, `Size`, `Cid`, `GetNodeLink`, `Data`) do not change the
+/-- The reads (`Links`, `Tree`, `MarshalJSON`, `GetPBNode`, `Stat`, `Marshal`, `RawData`, `Size`, `Cid`,
+`GetNodeLink`, `Data`) do not change the
 abstract node: same data, same builder in force, same links up to the in-place stable sort, hence the
 same encoding. -/
 theorem c11_reads_keep_node (P : Params B C) (n : Node B C) (h : Reachable P n) (op : Op B)
     (hr : match op with
-      | .links | .getLink _ | .data | .marshal | .rawData | .size | .cid => True
+      | .links | .getLink _ | .data | .marshal | .rawData | .size | .cid | .tree | .marshalJSON | .getPBNode
+      | .stat => True
       | _ => False) :
     (step P n op).1.data = n.data ∧ eff P (step P n op).1 = eff P n ∧
     sortLinks (step P n op).1.links = sortLinks n.links ∧
@@ -94,7 +112,7 @@ theorem c11_reads_keep_node (P : Params B C) (n : Node B C) (h : Reachable P n) 
       encodePB m.links m.data = encodePB n.links n.data := by
     intro m h1 h2 h3
     refine ⟨h1, h2, ?_, ?_⟩
-    · rw [h3, linksAfterRead_eq_sort P n hi, sortLinks_idem]
+    · rw [h3, sortLinks_linksAfterRead]
     · rw [h3, h1, encodePB_linksAfterRead P n hi]
   have hes := encodeProtobuf_spec P n false hi
   cases op with
@@ -108,6 +126,17 @@ theorem c11_reads_keep_node (P : Params B C) (n : Node B C) (h : Reachable P n) 
   | rawData => exact key _ hes.2.2.2.1 hes.2.2.2.2.1 hes.2.2.1
   | size => exact key _ hes.2.2.2.1 hes.2.2.2.2.1 hes.2.2.1
   | cid => exact key _ hes.2.2.2.1 hes.2.2.2.2.1 hes.2.2.1
+  | tree =>
+    exact key _ (cleanLinks_data n) (by simp [step, tree, eff, cleanLinks_builder]) (cleanLinks_links n)
+  | marshalJSON =>
+    exact key _ (cleanLinks_data n) (by simp [step, marshalJSON, eff, cleanLinks_builder]) (cleanLinks_links n)
+  | getPBNode => exact ⟨rfl, rfl, rfl, rfl⟩
+  | stat =>
+    obtain ⟨_, _, _, s4, s5, s6, s7⟩ := stat_spec P n hi
+    exact ⟨s4, s5, s6, s7⟩
+  | unmarshalJSON _ _ => exact absurd hr id
+  | updateNodeLink _ => exact absurd hr id
+  | reloadBlock => exact absurd hr id
   | addLink _ => exact absurd hr id
   | removeLink _ => exact absurd hr id
   | setLinks _ => exact absurd hr id
@@ -137,23 +166,25 @@ theorem c11_cid_fresh_trace (P : Params B C) (d : Option Bytes) (ops : List (Op 
   exact gen ops _ (Reachable.fresh d) hok
 
 /-- **Round trip.** Decoding the encoding of links that passed `checkLink` (defined CID, Tsize < 2^63)
-and any data (nil, empty or not) returns the same data and the same links, in encoded order. -/
+and a well-formed CID (`cidWf`: what the decoder's go-cid syntax check accepts, modelled by `parseCid`),
+and any data (nil, empty or not), returns the same data and the same links, in encoded order. -/
 theorem c11_roundtrip (ls : List Link) (d : Option Bytes) (hc : ∀ l ∈ ls, checkLink l = true)
-    (hlen : (encodePB ls d).length < 2 ^ 64) :
+    (hcid : ∀ l ∈ ls, cidWf l.cid) (hlen : (encodePB ls d).length < 2 ^ 64) :
     decodePB (encodePB ls d) = some (sortLinks ls, d) :=
-  decodePB_encodePB_checked ls d hc hlen
+  decodePB_encodePB_checked ls d hc hcid hlen
 
 /-- … in particular for the bytes any reachable node returns -/
 theorem c11_roundtrip_node (P : Params B C) (n : Node B C) (h : Reachable P n)
     (hlen : (encodePB n.links n.data).length < 2 ^ 64) :
     decodePB (rawData P n).2 = some (sortLinks n.links, n.data) := by
   rw [c11_rawdata_fresh P n h]
-  exact c11_roundtrip _ _ (c11_reachable_inv P n h).chk hlen
+  exact c11_roundtrip _ _ (c11_reachable_inv P n h).chk (c11_reachable_inv P n h).cids hlen
 
 /-- without the `checkLink` hypothesis: undefined-CID links are dropped and Tsize ≥ 2^63 is written as 0 -/
-theorem c11_roundtrip_any (ls : List Link) (d : Option Bytes) (hlen : (encodePB ls d).length < 2 ^ 64) :
+theorem c11_roundtrip_any (ls : List Link) (d : Option Bytes) (hlen : (encodePB ls d).length < 2 ^ 64)
+    (hcid : ∀ l ∈ ls, cidWf l.cid) :
     decodePB (encodePB ls d) = some ((sortLinks (ls.filter fun l => cidDefined l.cid)).map normLink, d) :=
-  decodePB_encodePB ls d hlen
+  decodePB_encodePB ls d hlen hcid
 
 /-- **Sorted, stable.** The encoded link order (`sortLinks`, what the decoder returns by
 `c11_roundtrip`) is a permutation of the links, sorted by name (byte-wise), and links with equal names
@@ -191,6 +222,101 @@ theorem c11_order_independent_cid (P : Params B C) (n m : Node B C) (hn : Reacha
     (cid P n).2 = (cid P m).2 := by
   rw [c11_cid_fresh P n hn, c11_cid_fresh P m hm, hb, hd, c11_order_independent _ _ _ hp hnd]
 
+
+/-- **Stat()** reports the CID and block size of the current encoding -/
+theorem c11_stat_fresh (P : Params B C) (n : Node B C) (h : Reachable P n) :
+    (stat P n).2.2 = some (P.sum (eff P n) (encodePB n.links n.data)) ∧
+    (stat P n).2.1.2.1 = (encodePB n.links n.data).length :=
+  ⟨(stat_spec P n (c11_reachable_inv P n h)).2.1, (stat_spec P n (c11_reachable_inv P n h)).2.2.1⟩
+
+/-- **GetPBNode()** (legacy pb form): the stably sorted links — the same list the codec serializes —
+and the data when non-empty; the node itself is not modified -/
+theorem c11_getPBNode (n : Node B C) :
+    (getPBNode n).1 = sortLinks n.links ∧ (getPBNode n).1.Pairwise (fun a b => bytesLe a.name b.name = true) :=
+  ⟨rfl, sortLinks_sorted _⟩
+
+/-- nodes reachable WITHOUT `UnmarshalJSON` (which installs the list "as serialized" without flagging it) -/
+inductive ReachableM (P : Params B C) : Node B C → Prop
+  | fresh (d : Option Bytes) : ReachableM P (fresh d)
+  | step {n : Node B C} (op : Op B) : ReachableM P n → opOk n op →
+      (∀ d ls, op ≠ .unmarshalJSON d ls) → ReachableM P (step P n op).1
+
+theorem c11_srt_step (P : Params B C) (n : Node B C) (op : Op B) (hi : Inv P n) (h : Srt n) (hok : opOk n op)
+    (hne : ∀ d ls, op ≠ .unmarshalJSON d ls) : Srt (step P n op).1 := by
+  have hes := encodeProtobuf_spec P n false hi
+  cases op with
+  | addLink l => exact srt_addLink n l h
+  | removeLink nm => exact srt_removeLink n nm h
+  | setLinks ls => exact srt_setLinks n ls h
+  | setData d => exact h
+  | setBuilder b => exact srt_setBuilder P n b h
+  | copy => exact srt_copy n
+  | reload =>
+    obtain ⟨m, hm, _, hl, _⟩ := reload_spec P n hi hok
+    simp only [step, hm]
+    intro _; rw [hl]; exact sortLinks_sorted _
+  | links => exact srt_cleanLinks n h
+  | getLink nm => exact h
+  | data => exact h
+  | marshal => exact srt_cleanLinks n h
+  | rawData => exact srt_of_links n _ h hes.2.2.1
+  | size => exact srt_of_links n _ h hes.2.2.1
+  | cid => exact srt_of_links n _ h hes.2.2.1
+  | tree => exact srt_cleanLinks n h
+  | marshalJSON => exact srt_cleanLinks n h
+  | unmarshalJSON d ls => exact absurd rfl (hne d ls)
+  | getPBNode => exact h
+  | stat =>
+    have a := encodeProtobuf_spec P n false hi
+    have b := encodeProtobuf_spec P _ false a.2.2.2.2.2.2.2
+    have c := encodeProtobuf_spec P _ false b.2.2.2.2.2.2.2
+    exact srt_of_links _ _ (srt_of_links _ _ (srt_of_links n _ h a.2.2.1) b.2.2.1) c.2.2.1
+  | updateNodeLink l => exact srt_addLink _ l (srt_removeLink _ l.name (srt_copy n))
+  | reloadBlock =>
+    obtain ⟨_, _, hl, _⟩ := reloadBlock_spec P n hi hok
+    intro _; rw [hl]; exact sortLinks_sorted _
+
+theorem reachableM_reachable (P : Params B C) (n : Node B C) (h : ReachableM P n) : Reachable P n := by
+  induction h with
+  | fresh d => exact .fresh d
+  | step op _ hok _ ih => exact .step op ih hok
+
+/-- **Links() / Tree() are sorted**: for every node built without UnmarshalJSON, `Links()` returns the
+links stably sorted by name and `Tree("")` their names in that order -/
+theorem c11_links_sorted (P : Params B C) (n : Node B C) (h : ReachableM P n) :
+    (getLinks n).2 = sortLinks n.links ∧ (tree n).2 = (sortLinks n.links).map (·.name) := by
+  have hs : Srt n := by
+    induction h with
+    | fresh d => exact srt_fresh d
+    | step op hr hok hne ih => exact c11_srt_step P _ op (c11_reachable_inv P _ (reachableM_reachable P _ hr)) ih hok hne
+  have : (cleanLinks n).links = sortLinks n.links := by
+    rw [cleanLinks_links]
+    split
+    · rfl
+    · next hd => exact (sortLinks_of_sorted (hs (by simpa using hd))).symm
+  exact ⟨this, by simp [tree, this]⟩
+
+/-- `parseCid` returns a prefix of its input: the decoder ignores bytes after the CID inside a Hash field
+(go-cid `CidFromBytes` behaviour, visible in the decoder tie) -/
+theorem c11_parseCid_prefix (b c : Bytes) (h : parseCid b = some c) : ∃ n, c = b.take n := by
+  unfold parseCid at h
+  cases hl : cidLen b with
+  | none => simp [hl] at h
+  | some k => simp [hl] at h; exact ⟨k, h.symm⟩
+
+/-! ### the second defect that was fixed (`fix: merkledag: UnmarshalJSON validates the links before
+replacing data and links`)
+
+With the code as it was (`unmarshalJSONUnfixed`), a JSON document with a link whose Tsize exceeds
+MaxInt64 returns an error after data and links were replaced while the cached encoding stays: the bytes
+`RawData()` returns are no longer the encoding of the node's data and links. -/
+theorem c11_unfixed_json_counterexample :
+    let P : Params Nat (Nat × Bytes) := { v0 := 0, usable := fun _ => true, sum := fun k e => (k, e) }
+    let n1 := (rawData P (fresh (some [1]))).1
+    let n2 := (unmarshalJSONUnfixed n1 (some [2]) [⟨[], [1, 85, 0, 1, 7], 2 ^ 63⟩]).1
+    (rawData P n2).2 ≠ encodePB n2.links n2.data := by
+  decide +kernel
+
 /-! ### the defect that was fixed (`fix: merkledag: SetCidBuilder(nil) must drop the cached CID`)
 
 With the code as it was (`setBuilderNilUnfixed`), `SetCidBuilder(v1); Cid(); SetCidBuilder(nil); Cid()`
@@ -215,7 +341,7 @@ def exL2 : Link := ⟨[97], [1, 85, 0, 1, 9], 5⟩
 example : Reachable exP (run exP (fresh (some [1, 2]))
     [.addLink exL1, .cid, .setBuilder (some 1), .addLink exL2, .rawData, .setBuilder none]) := by
   simp only [run]
-  repeat (first | exact Reachable.fresh _ | refine Reachable.step _ ?_ trivial)
+  repeat (first | exact Reachable.fresh _ | refine Reachable.step _ ?_ (by first | trivial | (intro _; decide)))
 
 theorem exSorted : sortLinks [exL1, exL2] = [exL2, exL1] := by
   simp [sortLinks, List.mergeSort, exL1, exL2, nameLe, bytesLe, List.MergeSort.Internal.splitInTwo]
@@ -228,7 +354,7 @@ theorem exEnc : encodePB [exL1, exL2] (some [1, 2]) =
 /-- the hypotheses of `c11_roundtrip` hold for a two-link node whose links were added out of order, and
 the encoding puts "a" before "b" although "b" was added first -/
 example : decodePB (encodePB [exL1, exL2] (some [1, 2])) = some ([exL2, exL1], some [1, 2]) := by
-  rw [c11_roundtrip _ _ (by decide) (by rw [exEnc]; decide +kernel), exSorted]
+  rw [c11_roundtrip _ _ (by decide) (by decide) (by rw [exEnc]; decide +kernel), exSorted]
 
 /-- the concrete bytes: Links "a" then "b" (Hash, Name, Tsize each), then Data -/
 example : encodePB [exL1, exL2] (some [1, 2]) =
